@@ -142,7 +142,7 @@ def evaluate(case):
     if base[0] == "ok":
         for eb in flat(base[1], case["group"]):
             if is_table(eb):
-                extra = [k for k in eb if k not in COMMON_T]
+                extra = [k for k in eb if k in FIELD_MODES]  # (keys this catalogue does not know are not judged: they may be new features)
                 if extra:
                     D.append(diff("mode sql table %s top-level keys" % eb.get("table_name"), "undocumented-top-level-field", [], extra))
     for m in MODES[:-1]:
@@ -172,7 +172,7 @@ def evaluate(case):
                     D.append(diff("mode %s table %s common fields at %s" % (m, eb.get("table_name"), ptr), "common-fields-differ", short(vb, 300), short(vr, 300)))
                     break
                 W.update("%s@%s" % (k, m) for k in er if k in FIELD_MODES)
-                extra = [k for k in er if k not in COMMON_T and k != "dataset" and not (k in FIELD_MODES and m in FIELD_MODES[k])]
+                extra = [k for k in er if k in FIELD_MODES and k != "dataset" and m not in FIELD_MODES[k]]
                 if extra:
                     D.append(diff("mode %s table %s top-level keys" % (m, eb.get("table_name")), "undocumented-top-level-field", [], extra))
                     break
